@@ -304,6 +304,42 @@ pub fn check_h(l: &mut Local, m: &Mat, rng: &mut Rng) {
         }
         words.push(out);
     }
+    // the generic encode() accepts any 1-D view: the same message as a reversed view and as a stride-2 view
+    // must give the same codeword as the owned array
+    {
+        use ndarray::s;
+        let i = rng.below(msgs.len());
+        let msg = &msgs[i];
+        let rev: Vec<u8> = msg.iter().rev().cloned().collect();
+        let rev_arr = to_gf2(&rev);
+        let mut wide = Vec::with_capacity(2 * k);
+        for &b in msg {
+            wide.push(b);
+            wide.push(1 - b);
+        }
+        let wide_arr = to_gf2(&wide);
+        for (lname, res) in [
+            ("reversed view", guard(|| enc.encode(&rev_arr.slice(s![..;-1])))),
+            ("stride-2 view", guard(|| enc.encode(&wide_arr.slice(s![..;2])))),
+        ] {
+            l.eval();
+            match res {
+                Ok(o) => {
+                    if from_gf2(&o) != words[i] {
+                        l.violation(
+                            format!("encode of a {} differs from encode of the same message as an owned array ({})", lname, kind),
+                            m.json().set("message", msg.clone()).set("codeword_from_view", from_gf2(&o)).set("codeword_from_owned", words[i].clone()),
+                        );
+                        return;
+                    }
+                }
+                Err(p) => {
+                    l.violation(format!("encode of a {} panicked ({}): {}", lname, kind, panic_class(&p)), m.json().set("message", msg.clone()).set("panic", p));
+                    return;
+                }
+            }
+        }
+    }
     // linearity on pairs
     for _ in 0..4 {
         let a = rng.below(msgs.len());
@@ -331,7 +367,7 @@ pub fn check_h(l: &mut Local, m: &Mat, rng: &mut Rng) {
 }
 
 pub fn run(run: &mut Run) {
-    run.rule = "H with 1<=r<=40, r<=n<=80 (every 4096th case 100<=r<=200, n<=400) from 12 families (exact staircase, staircase +/- one entry or one entry moved, tridiagonal band with exactly 2r-1 ones, upper bidiagonal, dense random at 5 densities, sparse, invertible dense tail, singular tail where only the LAST column is dependent, duplicate/zero column or zero row, square k=0); oracle = bit-packed rank of the last r columns and own syndrome; messages = 0, all units, 8 random, all-ones; linearity on 4 pairs; non-trivial = encoder built and >= 1 non-zero message encoded, distinct by matrix digest".into();
+    run.rule = "H with 1<=r<=40, r<=n<=80 (every 4096th case 100<=r<=200, n<=400) from 12 families (exact staircase, staircase +/- one entry or one entry moved, tridiagonal band with exactly 2r-1 ones, upper bidiagonal, dense random at 5 densities, sparse, invertible dense tail, singular tail where only the LAST column is dependent, duplicate/zero column or zero row, square k=0); oracle = bit-packed rank of the last r columns and own syndrome; messages = 0, all units, 8 random, all-ones (one of them also as a reversed and as a stride-2 array view); linearity on 4 pairs; non-trivial = encoder built and >= 1 non-zero message encoded, distinct by matrix digest".into();
     run.assumptions = vec!["which encoder type was used is read from the Debug output of Encoder (corroboration only)".into()];
     let n = if cfg!(miri) { 40 } else { run.tier.n(1_500_000, 60_000_000) };
     run.sub("matrices", n, |l, idx, rng| {
